@@ -769,7 +769,12 @@ class Gen:
             # else ever reads a derivative)
             s1, s2 = rng.sample(states, 2)
             q = "rate_of_" + s1
-            if q not in names:
+            if rng.random() < 0.4:
+                # ... or read by the other derivative directly, with no intermediate in between
+                for ln in lines[comp_of[s2]]:
+                    if ln["name"] == f"d{s2}_dt":
+                        ln["expr"] = ("bin", "-", ln["expr"], ("bin", "*", ("num", "0.5"), ("var", f"d{s1}_dt")))
+            elif q not in names:
                 lines[rng.choice(comps)].append({"name": q, "expr": ("bin", "*", ("num", "2"), ("var", f"d{s1}_dt")), "comment": None})
                 for ln in lines[comp_of[s2]]:
                     if ln["name"] == f"d{s2}_dt":
